@@ -373,6 +373,10 @@ func identOf(e ast.Expr) *ast.Ident {
 // evalAddr handles &x forms.
 func (vc *VC) evalAddr(st *State, x *ast.UnaryExpr) Term {
 	t := vc.typeOf(x)
+	if t == nil {
+		// synthesized &x (implicit address of a method receiver)
+		t = types.NewPointer(vc.typeOf(x.X))
+	}
 	pt := under(t).(*types.Pointer)
 	et := vc.ts.apply(pt.Elem())
 	switch in := x.X.(type) {
@@ -493,6 +497,12 @@ func (vc *VC) assign(st *State, lhs ast.Expr, v Term) {
 		if cell, ok := st.cells[obj]; ok {
 			pt := under(cell.T).(*types.Pointer)
 			vc.storeDeref(st, vc.ts.apply(pt.Elem()), cell.S, v)
+		} else if vc.addrTaken[obj] && vc.info.Defs[x] != nil {
+			// address-taken local: lives in a cell from its declaration on
+			vt := vc.ts.apply(vo.Type())
+			r := vc.alloc(st, types.NewPointer(vt))
+			vc.storeDeref(st, vt, r.S, v)
+			st.cells[obj] = r
 		}
 		st.vars[obj] = v
 		return
